@@ -844,3 +844,627 @@ Proof.
     exfalso. pose proof (Hw a v ts Hn Wi) as Hin.
     pose proof (find_none _ _ Fd _ Hin) as Hc. simpl in Hc. rewrite Nat.eqb_refl in Hc. discriminate.
 Qed.
+
+(* ================================================================ Part 4 *)
+Lemma holds_vals : forall st v c nd,
+  W st -> holds (vt st) v c nd -> ck c <> KGm -> length nd = length (cshape c) ->
+  vtok st v = ctok c /\ vbnd st v = btok (cbt c) /\ vshape st v = cshape c.
+Proof.
+  intros st v c nd [HV [_ Bn]] (ve & N & C & D & K) G L.
+  apply eq_content_iff in C as (T & S & B).
+  assert (NG : ck (ve_c ve) <> KGm).
+  { destruct K as [K|K]; [congruence|]. intro Hg. destruct (HV v ve N) as [Hgm _].
+    destruct (Hgm Hg) as [E1 E2]. rewrite <- D, E1, S, E2 in L. discriminate. }
+  splits.
+  - unfold vtok. rewrite N. congruence.
+  - rewrite (Bn v ve N NG). congruence.
+  - unfold vshape. rewrite N. congruence.
+Qed.
+
+Lemma rc_holds : forall st role v c nd,
+  W st -> holds (vt st) v c nd -> ck c <> KGm -> length nd = length (cshape c) -> rc st role v = rc_of role c.
+Proof.
+  intros st role v c nd HW Hh G L. destruct (holds_vals st v c nd HW Hh G L) as (A & B & C).
+  unfold rc, rc_of. congruence.
+Qed.
+
+Lemma len_nd_of : forall k f dims it, length (nd_of dims it) = length (cshape (comp_of k f it)).
+Proof. intros. unfold nd_of, comp_of, shape_of. simpl. rewrite !map_length. reflexivity. Qed.
+
+Lemma list_rc : forall st role k f dims l vs,
+  W st -> k <> KGm ->
+  Forall2 (fun it v => holds (vt st) v (comp_of k f it) (nd_of dims it)) l vs ->
+  map (rc st role) vs = map (fun it => rc_of role (comp_of k f it)) l.
+Proof.
+  intros st role k f dims l vs HW G H. induction H; simpl; [reflexivity|]. f_equal; [|exact IHForall2].
+  eapply rc_holds; eauto. apply len_nd_of.
+Qed.
+
+Lemma scal_rc : forall st l vs,
+  W st -> Forall2 (fun it v => holds (vt st) v (mkC KDim (i_tok it) [] (i_bt it)) []) l vs ->
+  map (fun v => (role_dim, vtok st v, vbnd st v, [1])) vs =
+  map (fun it => (role_dim, i_tok it, btok (i_bt it), [1])) l.
+Proof.
+  intros st l vs HW H. induction H; simpl; [reflexivity|]. f_equal; [|exact IHForall2].
+  destruct (holds_vals st y _ _ HW H ltac:(simpl; discriminate) eq_refl) as (A & B & _). simpl in *. congruence.
+Qed.
+
+Definition dim_ok3 (vtab : list ventry) (f : field) (a : nat) (oc : option citem) (ov : option nat) (d : dimid) : Prop :=
+  match oc, ov with
+  | Some it, Some v => holds vtab v (dimcomp f a it) [DCoord v] /\ d = DCoord v
+  | None, None => exists n, d = DFree n
+  | _, _ => False
+  end.
+
+Lemma dim_ok3_intro : forall vtab f dcs a dv ds,
+  WV vtab -> Forall3i (dim_ok vtab f) a dcs dv ds -> Forall3i free_shape a dcs dv ds ->
+  Forall3i (dim_ok3 vtab f) a dcs dv ds.
+Proof.
+  intros vtab f dcs. induction dcs as [|oc r IH]; intros a [|ov dv] [|d ds] HV F1 F2; simpl in *; try tauto.
+  destruct F1 as [A1 B1]. destruct F2 as [A2 B2]. split; [|apply IH; auto].
+  destruct oc as [it|], ov as [v|]; simpl in *; try tauto.
+  - destruct A1 as (nd & Hh & Hd).
+    pose proof (holds_dim_nd _ _ _ _ HV Hh eq_refl eq_refl) as E. subst nd. simpl in Hd. auto.
+  - apply A2. reflexivity.
+Qed.
+
+Lemma dims_rc : forall st f dcs a dv ds,
+  W st -> Forall3i (dim_ok3 (vt st) f) a dcs dv ds -> map (rc st role_dim) (somes dv) = s_dims f dcs a.
+Proof.
+  intros st f dcs. induction dcs as [|oc r IH]; intros a [|ov dv] [|d ds] HW F; simpl in *; try tauto.
+  destruct F as [A B]. destruct oc as [it|], ov as [v|]; simpl in *; try tauto.
+  - destruct A as [Hh _]. f_equal; [|apply (IH (S a) dv ds); auto].
+    eapply rc_holds; eauto. simpl. discriminate.
+  - apply (IH (S a) dv ds); auto.
+Qed.
+
+Lemma somes_in : forall vtab f dcs a dv ds v,
+  Forall3i (dim_ok3 vtab f) a dcs dv ds -> In v (somes dv) ->
+  exists c, In c (dcomps f dcs a) /\ holds vtab v c [DCoord v] /\ ck c = KDim.
+Proof.
+  intros vtab f dcs. induction dcs as [|oc r IH]; intros a [|ov dv] [|d ds] v F Hin; simpl in *; try tauto.
+  destruct F as [A B]. destruct oc as [it|], ov as [w|]; simpl in *; try tauto.
+  - destruct Hin as [<-|Hin].
+    + exists (dimcomp f a it). destruct A. auto.
+    + destruct (IH _ _ _ _ B Hin) as (c & H1 & H2). exists c. auto.
+  - apply (IH _ _ _ _ B Hin).
+Qed.
+
+Lemma comp_ext : forall a b, ck a = ck b -> eq_content a b = true -> a = b.
+Proof.
+  intros [k1 t1 s1 b1] [k2 t2 s2 b2] K C. apply eq_content_iff in C as (T & S & B). simpl in *. congruence.
+Qed.
+
+Lemma holds_same_var : forall vtab v c1 nd1 c2 nd2,
+  holds vtab v c1 nd1 -> holds vtab v c2 nd2 -> eq_content c1 c2 = true /\ nd1 = nd2.
+Proof.
+  intros vtab v c1 nd1 c2 nd2 (ve1 & N1 & C1 & D1 & _) (ve2 & N2 & C2 & D2 & _).
+  rewrite N1 in N2. inversion N2; subst ve2. split; [|congruence].
+  eapply eq_content_trans; [exact C1|apply eq_content_sym; exact C2].
+Qed.
+
+Lemma dimvars_nodup : forall vtab f dcs a dv ds,
+  Forall3i (dim_ok3 vtab f) a dcs dv ds -> NoDup (dcomps f dcs a) -> NoDup (somes dv).
+Proof.
+  intros vtab f dcs. induction dcs as [|oc r IH]; intros a [|ov dv] [|d ds] F N; simpl in *; try tauto; try constructor.
+  destruct F as [A B]. destruct oc as [it|], ov as [v|]; simpl in *; try tauto.
+  - inversion N as [|? ? N1 N2]; subst. constructor; [|eapply IH; eauto].
+    intro Hin. destruct (somes_in _ _ _ _ _ _ _ B Hin) as (c & Hc & Hh & K).
+    destruct A as [Hh0 _]. destruct (holds_same_var _ _ _ _ _ _ Hh0 Hh) as [C _].
+    apply N1. rewrite (comp_ext (dimcomp f a it) c); auto.
+  - eapply IH; eauto.
+Qed.
+
+Lemma dims_nodup : forall vtab f dcs a dv ds,
+  Forall3i (dim_ok3 vtab f) a dcs dv ds -> NoDup (somes dv) -> NoDup (frees ds) -> NoDup ds.
+Proof.
+  intros vtab f dcs. induction dcs as [|oc r IH]; intros a [|ov dv] [|d ds] F N1 N2; simpl in *; try tauto; try constructor.
+  - destruct F as [A B]. destruct oc as [it|], ov as [v|]; simpl in *; try tauto.
+    + destruct A as [_ ->]. intro Hin. inversion N1 as [|? ? M1 M2]; subst. apply M1.
+      clear - B Hin. revert a dv ds B Hin. induction r as [|oc r IH]; intros a [|ov dv] [|d ds] B Hin; simpl in *; try tauto.
+      destruct B as [A B]. destruct oc as [it|], ov as [w|]; simpl in *; try tauto.
+      * destruct A as [_ ->]. destruct Hin as [E|Hin]; [inversion E; left; reflexivity|right; eapply IH; eauto].
+      * destruct A as [n ->]. destruct Hin as [E|Hin]; [discriminate|eapply IH; eauto].
+    + destruct A as [n ->]. intro Hin. simpl in N2. inversion N2 as [|? ? M1 M2]; subst. apply M1.
+      unfold frees. apply in_flat_map. exists (DFree n). split; [exact Hin|left; reflexivity].
+  - destruct F as [A B]. destruct oc as [it|], ov as [v|]; simpl in *; try tauto.
+    + destruct A as [_ ->]. simpl in N2. inversion N1; subst. eapply IH; eauto.
+    + destruct A as [n ->]. simpl in N2. inversion N2; subst. eapply IH; eauto.
+Qed.
+
+Lemma F3_nth : forall vtab f dcs a dv ds a' it,
+  Forall3i (dim_ok3 vtab f) a dcs dv ds -> nth a' dcs None = Some it ->
+  exists v, nth a' dv None = Some v /\ holds vtab v (dimcomp f (a + a') it) [DCoord v].
+Proof.
+  intros vtab f dcs. induction dcs as [|oc r IH]; intros a [|ov dv] [|d ds] a' it F H; simpl in *; try tauto.
+  - destruct a'; discriminate.
+  - destruct F as [A B]. destruct a'.
+    + subst oc. destruct ov as [v|]; simpl in A; [|tauto]. exists v. rewrite Nat.add_0_r. tauto.
+    + destruct (IH _ _ _ _ _ B H) as (v & E & Hh). exists v. split; [exact E|].
+      replace (a + S a')%nat with (S a + a')%nat by lia. exact Hh.
+Qed.
+
+Lemma F3_pattern : forall vtab f dcs a dv ds k,
+  Forall3i (dim_ok3 vtab f) a dcs dv ds -> nsome (firstn k dv) = nsome (firstn k dcs).
+Proof.
+  intros vtab f dcs. induction dcs as [|oc r IH]; intros a [|ov dv] [|d ds] k F; simpl in *; try tauto.
+  - destruct k; reflexivity.
+  - destruct F as [A B]. destruct k; [reflexivity|]. simpl.
+    specialize (IH _ _ _ k B). unfold nsome in *.
+    destruct oc, ov; simpl in *; try tauto; rewrite IH; reflexivity.
+Qed.
+
+Lemma F3_len : forall vtab f dcs a dv ds,
+  Forall3i (dim_ok3 vtab f) a dcs dv ds -> length dv = length dcs /\ length ds = length dcs.
+Proof.
+  intros vtab f dcs. induction dcs as [|oc r IH]; intros a [|ov dv] [|d ds] F; simpl in *; try tauto.
+  destruct F as [_ B]. destruct (IH _ _ _ B). split; congruence.
+Qed.
+
+Definition kpred (v : nat) (x : option (nat * key)) : bool :=
+  match x with Some (w, _) => Nat.eqb w v | None => false end.
+
+Lemma dim_keys_find : forall dv n a v,
+  NoDup (somes dv) -> nth a dv None = Some v ->
+  find (kpred v) (dim_keys dv n) = Some (Some (v, KD (n + nsome (firstn a dv)))).
+Proof.
+  induction dv as [|ov dv IH]; intros n a v N H; simpl in *.
+  - destruct a; discriminate.
+  - destruct ov as [w|]; simpl in *.
+    + destruct a.
+      * inversion H; subst. simpl. rewrite Nat.eqb_refl. unfold nsome. simpl. rewrite Nat.add_0_r. reflexivity.
+      * inversion N as [|? ? N1 N2]; subst.
+        assert (Hin : In v (somes dv)).
+        { clear - H. revert a H. induction dv as [|o r IHr]; intros a H; [destruct a; discriminate|].
+          destruct a; simpl in *; [subst; left; reflexivity|]. destruct o; simpl; [right|]; eapply IHr; eauto. }
+        assert (Nat.eqb w v = false) by (apply Nat.eqb_neq; intro; subst; tauto).
+        rewrite H0. rewrite (IH (S n) a v N2 H). unfold nsome. simpl. f_equal. f_equal. f_equal. f_equal. lia.
+    + destruct a; [discriminate|]. rewrite (IH n a v N H). reflexivity.
+Qed.
+
+Lemma dim_keys_find_none : forall dv n v,
+  (forall w, In w (somes dv) -> w <> v) -> find (kpred v) (dim_keys dv n) = None.
+Proof.
+  induction dv as [|ov dv IH]; intros n v H; simpl; [reflexivity|].
+  destruct ov as [w|]; simpl in *.
+  - assert (Nat.eqb w v = false) by (apply Nat.eqb_neq; apply H; left; reflexivity).
+    rewrite H0. apply IH. intros. apply H. right. assumption.
+  - apply IH. exact H.
+Qed.
+
+Lemma index_of_nodup : forall l v j s,
+  NoDup l -> nth_error l j = Some v -> index_of v l s = Some (s + j)%nat.
+Proof.
+  induction l as [|x r IH]; intros v j s N H; [destruct j; discriminate|].
+  inversion N as [|? ? N1 N2]; subst. destruct j; simpl in *.
+  - inversion H; subst. rewrite Nat.eqb_refl. f_equal. lia.
+  - assert (Nat.eqb x v = false).
+    { apply Nat.eqb_neq. intro; subst. apply N1. eapply nth_error_In; eauto. }
+    rewrite H0. rewrite (IH v j (S s) N2 H). f_equal. lia.
+Qed.
+
+Lemma nd_of_inj : forall (ds : list dimid) ax1 ax2,
+  NoDup ds -> (forall a, In a ax1 -> (a < length ds)%nat) -> (forall a, In a ax2 -> (a < length ds)%nat) ->
+  map (fun a => nth a ds (DFree 0)) ax1 = map (fun a => nth a ds (DFree 0)) ax2 -> ax1 = ax2.
+Proof.
+  intros ds ax1. induction ax1 as [|a r IH]; intros [|b r2] N H1 H2 E; simpl in *; try discriminate; [reflexivity|].
+  inversion E as [[E1 E2]]. f_equal.
+  - apply (proj1 (NoDup_nth ds (DFree 0)) N); auto.
+  - apply IH; auto.
+Qed.
+
+Lemma Forall2_NoDup_in {A B} (P : A -> B -> Prop) : forall l vs,
+  Forall2 P l vs -> (forall x y v, In x l -> In y l -> P x v -> P y v -> x = y) -> NoDup l -> NoDup vs.
+Proof.
+  intros l vs H. induction H; intros Inj N; [constructor|].
+  inversion N as [|? ? N1 N2]; subst. constructor.
+  - intro Hin. apply N1.
+    assert (G : exists z, In z l /\ P z y).
+    { clear - H0 Hin. induction H0 as [|x0 y0 l0 l0' P0 F0 IH0]; simpl in *; [tauto|]. destruct Hin as [<-|Hin].
+      - exists x0. auto.
+      - destruct (IH0 Hin) as (z & Hz & Pz). exists z. auto. }
+    destruct G as (z & Hz & Pz). rewrite (Inj x z y); auto; [left; reflexivity|right; exact Hz].
+  - apply IHForall2; auto. intros. eapply Inj; eauto; right; assumption.
+Qed.
+
+Definition vF (st : wst) (x : option (nat * key)) : list (key * Z * list nat) :=
+  match x with
+  | Some (v, k) => match vfta st v with Some ts => [(k, vtok st v, ts)] | None => [] end
+  | None => []
+  end.
+
+Definition kvF (st : wst) (dk : list (option (nat * key))) (av : list nat) (v : nat) : list (key * Z) :=
+  match key_of_var dk av v with Some k => [(k, vtok st v)] | None => [] end.
+
+Definition gmF (st : wst) (dk : list (option (nat * key))) (av : list nat) (g : nat * option (list nat)) :=
+  (vtok st (fst g), match nth_error (vt st) (fst g) with Some e => cbt (ve_c e) | None => None end,
+   match snd g with None => None | Some vs => Some (flat_map (kvF st dk av) vs) end).
+
+Lemma file_view_unfold : forall st o, file_view st o =
+  let vc := flat_map (vF st) (dim_keys (o_dim o) 0) in
+  mkFF (map (rc st role_dim) (somes (o_dim o)) ++ map (fun v => (role_dim, vtok st v, vbnd st v, [1])) (o_scal o) ++
+        map (rc st role_aux) (o_aux o) ++ flat_map (fun x => map (rc st role_anc) (snd x)) vc ++
+        map (rc st role_meas) (o_meas o) ++ map (rc st role_fanc) (o_fanc o))
+       (map (fun x => (fst (fst x), snd (fst x), map (vtok st) (snd x))) vc)
+       (map (gmF st (dim_keys (o_dim o) 0) (o_aux o)) (o_gm o)).
+Proof. reflexivity. Qed.
+
+Lemma vcrs_spec : forall st f ancv dcs a n dv ds,
+  W st -> Forall3i (dim_ok3 (vt st) f) a dcs dv ds ->
+  (forall a' v, nth a' dv None = Some v -> vfta st v = wantv f ancv (a + a')) ->
+  flat_map (vF st) (dim_keys dv n) =
+  map (fun x => (fst (fst x), snd (fst x), map (fun j => nth j ancv 0%nat) (snd x))) (s_vcrs f dcs a n).
+Proof.
+  intros st f ancv dcs. induction dcs as [|oc r IH]; intros a n [|ov dv] [|d ds] HW F H; simpl in *; try tauto.
+  destruct F as [A B]. destruct oc as [it|], ov as [v|]; simpl in *; try tauto.
+  - destruct A as [Hh _].
+    pose proof (H 0%nat v eq_refl) as E0. rewrite Nat.add_0_r in E0. rewrite E0.
+    destruct (holds_vals st v _ _ HW Hh ltac:(simpl; discriminate) eq_refl) as (Tk & _). simpl in Tk.
+    assert (R : flat_map (vF st) (dim_keys dv (S n)) =
+                map (fun x => (fst (fst x), snd (fst x), map (fun j => nth j ancv 0%nat) (snd x))) (s_vcrs f r (S a) (S n))).
+    { apply (IH (S a) (S n) dv ds HW B). intros a' w Hn. rewrite (H (S a') w Hn). f_equal. lia. }
+    rewrite R, map_app. unfold wantv. destruct (want_idx f a); simpl; [rewrite Tk|]; reflexivity.
+  - apply (IH (S a) n dv ds HW B). intros a' w Hn. rewrite (H (S a') w Hn). f_equal. lia.
+Qed.
+
+Lemma s_vcrs_terms : forall f dcs a n x,
+  In x (s_vcrs f dcs a n) -> exists fr, ft f = Some fr /\ snd x = f_terms fr.
+Proof.
+  intros f dcs. induction dcs as [|oc r IH]; intros a n x H; simpl in H; [tauto|].
+  destruct oc as [it|]; [|eapply IH; eauto].
+  apply in_app_or in H as [H|H]; [|eapply IH; eauto].
+  unfold want_idx in H. destruct (ft f) as [fr|]; [|destruct H].
+  destruct (Nat.eqb (f_z fr) a); [|destruct H]. destruct (f_terms fr) eqn:T; [destruct H|].
+  destruct H as [<-|[]]. exists fr. simpl. auto.
+Qed.
+
+Lemma flat_map_map {A B C} (f : B -> list C) (g : A -> B) : forall l,
+  flat_map f (map g l) = flat_map (fun x => f (g x)) l.
+Proof. induction l as [|x r IH]; simpl; [reflexivity|]. rewrite IH. reflexivity. Qed.
+
+Lemma nodupb_NoDup {A} (eqb : A -> A -> bool) : (forall x, eqb x x = true) ->
+  forall l, nodupb eqb l = true -> NoDup l.
+Proof.
+  intros R. induction l as [|x r IH]; simpl; intro H; [constructor|].
+  apply andb_true_iff in H as [H1 H2]. constructor; [|auto].
+  intro Hin. apply negb_true_iff in H1.
+  assert (existsb (eqb x) r = true) by (apply existsb_exists; exists x; auto). congruence.
+Qed.
+
+Lemma comp_eqb_refl : forall c, comp_eqb c c = true.
+Proof.
+  intro c. unfold comp_eqb, eq_comp. simpl. rewrite eq_content_refl.
+  assert (kind_eqb (ck c) (ck c) = true) by (apply kind_eqb_eq; reflexivity). rewrite H. reflexivity.
+Qed.
+
+Lemma item_eqb_refl : forall x, item_eqb x x = true.
+Proof.
+  intro x. unfold item_eqb. rewrite Z.eqb_refl.
+  assert (A : list_eqb Nat.eqb (i_ax x) (i_ax x) = true) by (apply (list_eqb_eq Nat.eqb Nat.eqb_eq); reflexivity).
+  assert (B : option_eqb Z.eqb (i_bt x) (i_bt x) = true) by (apply optz_eqb_eq; reflexivity).
+  rewrite A, B. reflexivity.
+Qed.
+
+Record wf (f : field) : Prop := mkWF {
+  wf_dims : NoDup (dcomps f (dimc f) 0);
+  wf_aux : NoDup (aux f);
+  wf_auxax : forall it, In it (aux f) -> forall a, In a (i_ax it) -> (a < length (dimc f))%nat;
+  wf_gm : forall g, In g (gms f) -> forall x, In x (g_co g) -> co_ok f x = true;
+  wf_ft : forall fr, ft f = Some fr -> co_ok f (true, f_z fr) = true /\
+                                       forall j, In j (f_terms fr) -> (j < length (anc f))%nat
+}.
+
+Lemma wfb_wf : forall f, wfb f = true -> wf f.
+Proof.
+  intros f H. unfold wfb in H. repeat (apply andb_true_iff in H as [H ?]).
+  constructor.
+  - eapply nodupb_NoDup; [apply comp_eqb_refl|exact H].
+  - eapply nodupb_NoDup; [apply item_eqb_refl|eassumption].
+  - intros it Hit a Ha. rewrite forallb_forall in H2. specialize (H2 it Hit). rewrite forallb_forall in H2.
+    apply Nat.ltb_lt. apply H2. exact Ha.
+  - intros g Hg x Hx. rewrite forallb_forall in H1. specialize (H1 g Hg). rewrite forallb_forall in H1. auto.
+  - intros fr Hf. rewrite Hf in H0. apply andb_true_iff in H0 as [A B]. split; [exact A|].
+    intros j Hj. rewrite forallb_forall in B. apply Nat.ltb_lt. auto.
+Qed.
+
+Lemma wf_gm_list : forall f, wf f -> forall g, In g (gm_list f) -> forall x, In x (g_co g) -> co_ok f x = true.
+Proof.
+  intros f Hwf g Hg x Hx. unfold gm_list in Hg. destruct (ft f) as [fr|] eqn:Ft; [|eapply wf_gm; eauto].
+  destruct (wf_ft f Hwf fr Ft) as [Hz _]. unfold vertical_datum in Hg.
+  destruct (f_d fr) as [d|]; [|eapply wf_gm; eauto].
+  destruct (Nat.eqb _ 1).
+  - apply in_map_iff in Hg as (g0 & <- & Hg0).
+    destruct (option_eqb Z.eqb (Some d) (g_d g0)); [|eapply wf_gm; eauto].
+    destruct (existsb (co_eqb (true, f_z fr)) (g_co g0)); [eapply wf_gm; eauto|].
+    simpl in Hx. apply in_app_or in Hx as [Hx|[<-|[]]]; [eapply wf_gm; eauto|exact Hz].
+  - apply in_app_or in Hg as [Hg|[<-|[]]]; [eapply wf_gm; eauto|].
+    simpl in Hx. destruct Hx as [<-|[]]. exact Hz.
+Qed.
+
+Lemma holds_kind : forall vtab v c nd,
+  holds vtab v c nd -> ck c <> KAnc -> exists ve, nth_error vtab v = Some ve /\ ck (ve_c ve) = ck c.
+Proof. intros vtab v c nd (ve & N & _ & _ & K) Hk. exists ve. split; [exact N|]. destruct K; congruence. Qed.
+
+Lemma Forall2_flip' {A B} (P : A -> B -> Prop) : forall l1 l2,
+  Forall2 (fun x y => P y x) l2 l1 -> Forall2 P l1 l2.
+Proof. intros l1 l2 H. induction H; constructor; auto. Qed.
+
+Lemma map_eq_F2 {A B C} (f : A -> C) (g : B -> C) : forall l1 l2,
+  map f l1 = map g l2 -> Forall2 (fun x y => f x = g y) l1 l2.
+Proof.
+  induction l1 as [|x r IH]; intros [|y r2] H; simpl in *; try discriminate; constructor.
+  - congruence.
+  - apply IH. congruence.
+Qed.
+
+Section FileView.
+  Variables (st : wst) (f : field) (o : fout).
+  Hypothesis HW : W st.
+  Hypothesis D3 : Forall3i (dim_ok3 (vt st) f) 0 (dimc f) (o_dim o) (o_dims o).
+  Hypothesis NDv : NoDup (somes (o_dim o)).
+  Hypothesis NDa : NoDup (o_aux o).
+  Hypothesis DA : Forall2 (fun it v => holds (vt st) v (comp_of KAux f it) (nd_of (o_dims o) it)) (aux f) (o_aux o).
+
+  Lemma key_spec : forall x, co_ok f x = true ->
+    kvF st (dim_keys (o_dim o) 0) (o_aux o) (co_var (o_dim o) (o_aux o) x) = s_key f x.
+  Proof.
+    intros [[|] n] Hx; unfold co_ok in Hx; simpl in Hx.
+    - destruct (nth n (dimc f) None) as [it|] eqn:Hn; [|discriminate].
+      destruct (F3_nth _ _ _ _ _ _ _ _ D3 Hn) as (v & Ev & Hh). simpl in Hh.
+      unfold co_var, s_key. simpl. rewrite Ev, Hn. unfold kvF, key_of_var.
+      change (fun x : option (nat * key) => match x with Some (w, _) => Nat.eqb w v | None => false end) with (kpred v).
+      rewrite (dim_keys_find _ 0 n v NDv Ev). simpl.
+      rewrite (F3_pattern _ _ _ _ _ _ n D3).
+      destruct (holds_vals st v _ _ HW Hh ltac:(simpl; discriminate) eq_refl) as (Tk & _). simpl in Tk.
+      rewrite Tk. reflexivity.
+    - apply Nat.ltb_lt in Hx.
+      pose proof (Forall2_length' _ _ _ DA) as Len.
+      destruct (nth_error (aux f) n) as [it|] eqn:Hn; [|apply nth_error_None in Hn; lia].
+      pose proof (Forall2_nth _ _ _ n noitem 0%nat DA Hx) as Hh.
+      rewrite (nth_error_nth _ _ noitem Hn) in Hh.
+      set (v := nth n (o_aux o) 0%nat) in *.
+      assert (Nv : nth_error (o_aux o) n = Some v) by (apply nth_error_nth'; lia).
+      unfold co_var, s_key. simpl. fold v. rewrite Hn. unfold kvF, key_of_var.
+      change (fun x : option (nat * key) => match x with Some (w, _) => Nat.eqb w v | None => false end) with (kpred v).
+      rewrite dim_keys_find_none.
+      + rewrite (index_of_nodup _ v n 0 NDa Nv). simpl.
+        destruct (holds_vals st v _ _ HW Hh ltac:(simpl; discriminate) (len_nd_of KAux f _ it)) as (Tk & _). simpl in Tk.
+        rewrite Tk. reflexivity.
+      + intros w Hw E. subst w. destruct (somes_in _ _ _ _ _ _ _ D3 Hw) as (c & _ & Hc & Kc).
+        destruct (holds_kind _ _ _ _ Hc ltac:(congruence)) as (ve1 & N1 & K1).
+        destruct (holds_kind _ _ _ _ Hh ltac:(simpl; discriminate)) as (ve2 & N2 & K2).
+        rewrite N1 in N2. inversion N2; subst. simpl in K2. congruence.
+  Qed.
+End FileView.
+
+Lemma aux_vars_nodup : forall st f o,
+  wf f -> NoDup (o_dims o) -> length (o_dims o) = length (dimc f) ->
+  Forall2 (fun it v => holds (vt st) v (comp_of KAux f it) (nd_of (o_dims o) it)) (aux f) (o_aux o) ->
+  NoDup (o_aux o).
+Proof.
+  intros st f o Hwf ND Len DA. eapply Forall2_NoDup_in; [exact DA| |exact (wf_aux f Hwf)].
+  intros x y v Hx Hy H1 H2. destruct (holds_same_var _ _ _ _ _ _ H1 H2) as [C E].
+  apply eq_content_iff in C as (T & _ & B). simpl in T, B.
+  assert (A : i_ax x = i_ax y).
+  { apply (nd_of_inj (o_dims o)); auto.
+    - intros a Ha. rewrite Len. exact (wf_auxax f Hwf x Hx a Ha).
+    - intros a Ha. rewrite Len. exact (wf_auxax f Hwf y Hy a Ha). }
+  destruct x, y; simpl in *; congruence.
+Qed.
+
+(* what a written field looks like in the final file is the specification view *)
+Lemma file_view_spec : forall st f o,
+  W st -> field_ok2 (vt st) f o -> wf f -> fta_own st f o -> file_view st o = spec_view f.
+Proof.
+  intros st f o HW [[D1 D2 DA DN DM DF DG] FS NF GM] Hwf FT.
+  pose proof (dim_ok3_intro _ _ _ _ _ _ (proj1 HW) D1 FS) as D3.
+  pose proof (dimvars_nodup _ _ _ _ _ _ D3 (wf_dims f Hwf)) as NDv.
+  pose proof (dims_nodup _ _ _ _ _ _ D3 NDv NF) as NDd.
+  destruct (F3_len _ _ _ _ _ _ D3) as [Ldv Lds].
+  pose proof (aux_vars_nodup st f o Hwf NDd Lds DA) as NDa.
+  rewrite file_view_unfold. cbv zeta. unfold spec_view.
+  rewrite (vcrs_spec st f (o_anc o) (dimc f) 0 0 (o_dim o) (o_dims o) HW D3 FT).
+  f_equal.
+  - rewrite (dims_rc st f _ _ _ _ HW D3), (scal_rc st _ _ HW D2).
+    assert (G1 : KAux <> KGm) by discriminate. assert (G2 : KMeas <> KGm) by discriminate.
+    assert (G3 : KFAnc <> KGm) by discriminate.
+    rewrite (list_rc st role_aux KAux f _ _ _ HW G1 DA).
+    rewrite (list_rc st role_meas KMeas f _ _ _ HW G2 DM).
+    rewrite (list_rc st role_fanc KFAnc f _ _ _ HW G3 DF).
+    do 3 f_equal. f_equal.
+    rewrite flat_map_map. apply flat_map_ext_in. intros x Hx. simpl.
+    destruct (s_vcrs_terms _ _ _ _ _ Hx) as (fr & Ft & Tm). rewrite map_map. apply map_ext_in. intros j Hj.
+    assert (Lj : (j < length (anc f))%nat) by (apply (proj2 (wf_ft f Hwf fr Ft)); rewrite <- Tm; exact Hj).
+    pose proof (Forall2_nth _ _ _ j noitem 0%nat DN Lj) as Hh.
+    unfold anc_item.
+    apply (rc_holds st role_anc _ (comp_of KAnc f (nth j (anc f) noitem)) _ HW Hh); [simpl; discriminate|apply len_nd_of].
+  - rewrite map_map. apply map_ext_in. intros x Hx. simpl. f_equal.
+    destruct (s_vcrs_terms _ _ _ _ _ Hx) as (fr & Ft & Tm). rewrite map_map. apply map_ext_in. intros j Hj.
+    assert (Lj : (j < length (anc f))%nat) by (apply (proj2 (wf_ft f Hwf fr Ft)); rewrite <- Tm; exact Hj).
+    pose proof (Forall2_nth _ _ _ j noitem 0%nat DN Lj) as Hh.
+    assert (G4 : ck (comp_of KAnc f (nth j (anc f) noitem)) <> KGm) by (simpl; discriminate).
+    destruct (holds_vals st _ _ _ HW Hh G4 (len_nd_of KAnc f _ _)) as (Tk & _). exact Tk.
+  - symmetry. apply Forall2_map_eq.
+    apply map_eq_F2 in GM.
+    assert (GM' : Forall2 (fun g x => snd x = (if Nat.ltb 1 (length (gm_list f))
+                       then Some (map (co_var (o_dim o) (o_aux o)) (g_co g)) else None)) (gm_list f) (o_gm o)).
+    { apply Forall2_flip'. exact GM. }
+    assert (IN : Forall2 (fun g (x : nat * option (list nat)) => In g (gm_list f)) (gm_list f) (o_gm o)).
+    { apply Forall2_combine_in; [eapply Forall2_length'; eauto|]. intros g x Hin. apply in_combine_r in Hin. exact Hin. }
+    eapply Forall2_impl'; [|exact (Forall2_and _ _ _ _ (Forall2_and _ _ _ _ DG GM') IN)].
+    intros g x [[(nd & ve & N & C & _) Sx] Hg]. simpl in *. unfold gmF. rewrite Sx.
+    apply eq_content_iff in C as (T & _ & B). simpl in T, B.
+    unfold vtok. rewrite N. rewrite <- T, <- B. f_equal.
+    destruct (Nat.ltb 1 (length (gm_list f))); [|reflexivity]. f_equal.
+    rewrite flat_map_map. apply flat_map_ext_in. intros c Hc. symmetry.
+    apply (key_spec st f o HW D3 NDv NDa DA). eapply wf_gm_list; eauto.
+Qed.
+
+(* ================================================================ Part 5 *)
+Definition wfs (fs : list field) : Prop := Forall (fun f => wfb f = true) fs.
+
+Lemma wfs_F2 : forall fs (os : list fout), wfs fs -> length fs = length os -> Forall2 (fun f _ => wf f) fs os.
+Proof.
+  intros fs os H L. apply Forall2_combine_in; [exact L|]. intros f o Hin. apply in_combine_r in Hin.
+  unfold wfs in H. rewrite Forall_forall in H. apply wfb_wf. auto.
+Qed.
+
+(* T: two axes of one field never land on one netCDF dimension (repaired rule) *)
+Lemma axes_distinct_dimensions : forall fs st os,
+  wfs fs -> write_fields true fs st0 = (st, os) -> Forall2 (fun _ o => NoDup (o_dims o)) fs os.
+Proof.
+  intros fs st os WF H.
+  destruct (write_fields2 _ _ _ _ Inv_st0 W_st0 FreeInv_st0 H) as (_ & HW & _ & _ & OK & _).
+  pose proof (wfs_F2 fs os WF (Forall2_length' _ _ _ OK)) as WF2.
+  eapply Forall2_impl'; [|exact (Forall2_and _ _ _ _ OK WF2)].
+  intros f o [[[D1 _ _ _ _ _ _] FS NF _] Hwf]. simpl in *.
+  pose proof (dim_ok3_intro _ _ _ _ _ _ (proj1 HW) D1 FS) as D3.
+  eapply dims_nodup; eauto. eapply dimvars_nodup; eauto. apply (wf_dims f Hwf).
+Qed.
+
+Lemma files_are_spec_views : forall fs st os,
+  wfs fs -> ft_conflict true fs = false -> write_fields true fs st0 = (st, os) ->
+  map (file_view st) os = map spec_view fs.
+Proof.
+  intros fs st os WF G H.
+  destruct (write_fields2 _ _ _ _ Inv_st0 W_st0 FreeInv_st0 H) as (_ & HW & _ & _ & OK & _).
+  pose proof (final_fta _ _ _ H G) as FT.
+  pose proof (wfs_F2 fs os WF (Forall2_length' _ _ _ OK)) as WF2.
+  symmetry. apply Forall2_map_eq.
+  eapply Forall2_impl'; [|exact (Forall2_and _ _ _ _ (Forall2_and _ _ _ _ OK FT) WF2)].
+  intros f o [[A B] C]. simpl in *. symmetry. apply file_view_spec; auto.
+Qed.
+
+(* THE COMPOSITION THEOREM *)
+Lemma composition : forall fs,
+  wfs fs -> ft_conflict true fs = false -> roundtrip true true fs = map expected fs.
+Proof.
+  intros fs WF G. unfold roundtrip. destruct (write_fields true fs st0) as [st os] eqn:H.
+  rewrite read_views_map, (files_are_spec_views fs st os WF G H), map_map. reflexivity.
+Qed.
+
+(* a well-formed field alone never conflicts with itself *)
+Lemma somes_nth_in {A} : forall (l : list (option A)) a v, nth a l None = Some v -> In v (somes l).
+Proof.
+  induction l as [|o r IH]; intros a v H; [destruct a; discriminate|].
+  destruct a; simpl in *.
+  - subst. left. reflexivity.
+  - destruct o; simpl; [right|]; eapply IH; eauto.
+Qed.
+
+Lemma somes_nth_inj {A} : forall (l : list (option A)) a a' v,
+  NoDup (somes l) -> nth a l None = Some v -> nth a' l None = Some v -> a = a'.
+Proof.
+  induction l as [|o r IH]; intros a a' v N H1 H2; [destruct a; discriminate|].
+  destruct o as [w|]; simpl in N.
+  - inversion N as [|? ? N1 N2]; subst. destruct a, a'; simpl in *; auto.
+    + inversion H1; subst. exfalso. apply N1. eapply somes_nth_in; eauto.
+    + inversion H2; subst. exfalso. apply N1. eapply somes_nth_in; eauto.
+    + f_equal. eapply IH; eauto.
+  - destruct a, a'; simpl in *; try discriminate. f_equal. eapply IH; eauto.
+Qed.
+
+Lemma in_combine_seq_inv {A} : forall (l : list (option A)) s a ov,
+  In (a, ov) (combine (seq s (length l)) l) -> (s <= a)%nat /\ nth (a - s) l None = ov.
+Proof.
+  induction l as [|x r IH]; intros s a ov H; simpl in *; [tauto|].
+  destruct H as [E|H].
+  - inversion E; subst. split; [lia|]. rewrite Nat.sub_diag. reflexivity.
+  - destruct (IH _ _ _ H) as [L N]. split; [lia|].
+    replace (a - s)%nat with (S (a - S s)) by lia. exact N.
+Qed.
+
+Lemma owner_terms_inv : forall o f x,
+  In x (owner_terms o f) -> exists a, nth a (o_dim o) None = Some (fst x) /\ snd x = wantv f (o_anc o) a.
+Proof.
+  intros o f x H. unfold owner_terms in H. apply in_flat_map in H as ([a [v|]] & Hin & Hx); [|destruct Hx].
+  destruct Hx as [<-|[]]. apply in_combine_seq_inv in Hin as [_ Hn]. rewrite Nat.sub_0_r in Hn.
+  exists a. split; [exact Hn|]. simpl. unfold wantv, want_idx. destruct (ft f) as [fr|]; [|reflexivity].
+  destruct (Nat.eqb (f_z fr) a); [|reflexivity]. destruct (f_terms fr); reflexivity.
+Qed.
+
+Lemma optl_eqb_refl : forall a : option (list nat), option_eqb (list_eqb Nat.eqb) a a = true.
+Proof. intros [l|]; simpl; [|reflexivity]. apply (list_eqb_eq Nat.eqb Nat.eqb_eq). reflexivity. Qed.
+
+Lemma single_no_conflict : forall f, wfb f = true -> ft_conflict true [f] = false.
+Proof.
+  intros f Hb. pose proof (wfb_wf f Hb) as Hwf. unfold ft_conflict.
+  destruct (write_fields true [f] st0) as [st os] eqn:H.
+  destruct (write_fields2 _ _ _ _ Inv_st0 W_st0 FreeInv_st0 H) as (_ & HW & _ & _ & OK & _).
+  inversion OK as [|? o ? ? OK1 OK2]; subst. inversion OK2; subst. simpl. rewrite app_nil_r.
+  destruct OK1 as [[D1 _ _ _ _ _ _] FS NF _].
+  pose proof (dim_ok3_intro _ _ _ _ _ _ (proj1 HW) D1 FS) as D3.
+  pose proof (dimvars_nodup _ _ _ _ _ _ D3 (wf_dims f Hwf)) as NDv.
+  destruct (existsb _ (owner_terms o f)) eqn:E; [|reflexivity]. exfalso.
+  apply existsb_exists in E as (x & Hx & E). apply existsb_exists in E as (y & Hy & E).
+  apply andb_true_iff in E as [E1 E2]. apply Nat.eqb_eq in E1. apply negb_true_iff in E2.
+  destruct (owner_terms_inv _ _ _ Hx) as (a & Na & Sa). destruct (owner_terms_inv _ _ _ Hy) as (b & Nb & Sb).
+  rewrite <- E1 in Nb. assert (a = b) by (eapply somes_nth_inj; eauto). subst b.
+  rewrite Sa, Sb, optl_eqb_refl in E2. discriminate.
+Qed.
+
+(* every field comes back from the shared file exactly as from a file of its own *)
+Lemma roundtrip_as_single_files : forall fs,
+  wfs fs -> ft_conflict true fs = false ->
+  forall i f, nth_error fs i = Some f ->
+    nth_error (roundtrip true true fs) i = nth_error (roundtrip true true [f]) 0.
+Proof.
+  intros fs WF G i f Hn. rewrite (composition fs WF G).
+  assert (Hb : wfb f = true).
+  { unfold wfs in WF. rewrite Forall_forall in WF. apply WF. eapply nth_error_In; eauto. }
+  rewrite (composition [f] (Forall_cons _ Hb (Forall_nil _)) (single_no_conflict f Hb)). simpl.
+  rewrite nth_error_map, Hn. reflexivity.
+Qed.
+
+Lemma roundtrip_concat_singles : forall fs,
+  wfs fs -> ft_conflict true fs = false ->
+  roundtrip true true fs = flat_map (fun f => roundtrip true true [f]) fs.
+Proof.
+  intros fs WF G. rewrite (composition fs WF G). unfold wfs in WF. clear G.
+  induction WF as [|f r Hb _ IH]; simpl; [reflexivity|].
+  rewrite (composition [f] (Forall_cons _ Hb (Forall_nil _)) (single_no_conflict f Hb)). simpl. rewrite IH. reflexivity.
+Qed.
+
+(* order: any permutation of the list gives the same fields, permuted *)
+Lemma order_invariance : forall fs fs',
+  Permutation fs fs' -> wfs fs -> ft_conflict true fs = false -> ft_conflict true fs' = false ->
+  Permutation (roundtrip true true fs) (roundtrip true true fs') /\
+  roundtrip true true fs' = map expected fs'.
+Proof.
+  intros fs fs' P WF G G'.
+  assert (WF' : wfs fs') by (unfold wfs in *; eapply Permutation_Forall; eauto).
+  rewrite (composition fs WF G), (composition fs' WF' G'). split; [|reflexivity].
+  apply Permutation_map. exact P.
+Qed.
+
+(* non-vacuity and sharpness of the guards *)
+Lemma composition_example :
+  wfs [wA; wA; wB] /\ ft_conflict true [wA; wA; wB] = false /\
+  (length (vt (fst (write_fields true [wA; wA; wB] st0))) <
+   2 * length (vt (fst (write_fields true [wA] st0))) + length (vt (fst (write_fields true [wB] st0))))%nat.
+Proof.
+  split; [repeat constructor|]. split; [vm_compute; reflexivity|]. apply Nat.ltb_lt. vm_compute. reflexivity.
+Qed.
+
+(* two equal dimension coordinates in one field: outside the guard, and the
+   conclusion about distinct dimensions really fails *)
+Definition wH : field :=
+  mkField [3; 3] [Some (mkI [] 20 None); Some (mkI [] 20 None)] [] [] [] [] [] None [].
+
+Lemma wf_guard_needed :
+  wfb wH = false /\ exists o, In o (snd (write_fields true [wH] st0)) /\ ~ NoDup (o_dims o).
+Proof.
+  split; [vm_compute; reflexivity|].
+  exists (mkO [DCoord 0; DCoord 0] [Some 0%nat; Some 0%nat] [] [] [] [] [] []). split.
+  - vm_compute. auto.
+  - intro H. inversion H as [|? ? N _]; subst. apply N. left. reflexivity.
+Qed.
+
+Lemma roundtrip_singles : forall fs,
+  wfs fs -> ft_conflict true fs = false ->
+  (roundtrip true true fs = flat_map (fun f => roundtrip true true [f]) fs) /\
+  (forall i f, nth_error fs i = Some f ->
+     nth_error (roundtrip true true fs) i = nth_error (roundtrip true true [f]) 0%nat).
+Proof.
+  intros fs WF G. split; [exact (roundtrip_concat_singles fs WF G)|exact (roundtrip_as_single_files fs WF G)].
+Qed.
